@@ -43,13 +43,16 @@ def SeqSafe (u : Upd CVal) : Prop := u.key ≠ sequenceKey ∨ (u.op = .set ∧ 
 
 /-- what a call in progress must satisfy for the sequence argument -/
 def SeqOK (w : World) : Call → Prop
-  | .createGetSeq name => validTableName name = true
-  | .createSetSeq name cur ver =>
+  | .createGetSeq name _ => validTableName name = true
+  | .createSetSeq name cur ver _ =>
     validTableName name = true ∧ ver < w.index ∧
     (∀ p, w.store.get? sequenceKey = some p → p.ver = ver → p.value = .seq cur) ∧
     (w.store.get? sequenceKey = none → cur = tableIDsRangeStart)
   | .createSetRec name _ => validTableName name = true
   | .deleteDel name _ => validTableName name = true
+  | .restoreMark name _ _ _ => validTableName name = true
+  | .restoreReread name _ => validTableName name = true
+  | .restoreSwitch name _ _ _ => validTableName name = true
   | _ => True
 
 structure SeqInv (s : System) : Prop where
@@ -67,12 +70,15 @@ theorem seqInv_init : SeqInv {} :=
 
 theorem SeqOK.congr {a b : World} {c : Call} (h : SeqOK b c) (e : SameReal a b) : SeqOK a c := by
   cases c with
-  | createSetSeq name cur ver =>
+  | createSetSeq name cur ver k =>
     obtain ⟨h1, h2, h3, h4⟩ := h
     exact ⟨h1, by rw [e.2.1]; exact h2, by rw [e.1]; exact h3, by rw [e.1]; exact h4⟩
-  | createGetSeq name => exact h
+  | createGetSeq name k => exact h
   | createSetRec name id => exact h
   | deleteDel name ver => exact h
+  | restoreMark n t v i => exact h
+  | restoreReread n i => exact h
+  | restoreSwitch n i t v => exact h
   | _ => trivial
 
 /-- a proposal that does not touch the sequence record keeps every pending sequence decision valid -/
@@ -85,12 +91,15 @@ theorem seqOK_propose_other (w : World) (u : Upd CVal) (hk : u.key ≠ sequenceK
     · exact absurd hk'.symm hk
     · exact absurd hk'.symm hk
   cases c with
-  | createSetSeq name cur ver =>
+  | createSetSeq name cur ver k =>
     obtain ⟨h1, h2, h3, h4⟩ := h
     exact ⟨h1, by rw [propose_index]; omega, by rw [hget]; exact h3, by rw [hget]; exact h4⟩
-  | createGetSeq name => exact h
+  | createGetSeq name k => exact h
   | createSetRec name id => exact h
   | deleteDel name ver => exact h
+  | restoreMark n t v i => exact h
+  | restoreReread n i => exact h
+  | restoreSwitch n i t v => exact h
   | _ => trivial
 
 theorem curSeq_propose_other (w : World) (u : Upd CVal) (hk : u.key ≠ sequenceKey) :
@@ -104,16 +113,20 @@ theorem curSeq_propose_other (w : World) (u : Upd CVal) (hk : u.key ≠ sequence
     · exact absurd hk'.symm hk
   rw [hget]
 
+theorem seqOK_afterSeq (w : World) (name : String) (id : Nat) (k : Purpose) (h : validTableName name = true) :
+    SeqOK w (afterSeq name id k) := by
+  cases k <;> exact h
+
 /-- the proposal a call makes is not on the sequence record, except for `createSetSeq` -/
-theorem step_key_other (w : World) (c : Call) (hc : SeqOK w c) (hns : ∀ name cur ver, c ≠ .createSetSeq name cur ver) :
+theorem step_key_other (w : World) (c : Call) (hc : SeqOK w c) (hns : ∀ name cur ver k, c ≠ .createSetSeq name cur ver k) :
     SameReal (w.step c).1 w ∨ ∃ u, u.key ≠ sequenceKey ∧ SameReal (w.step c).1 (w.propose u).1 ∧ (w.step c).1.issued = w.issued := by
   cases c with
   | createStart name =>
     simp only [World.step]; split; · exact Or.inl (SameReal.rfl' _)
     split <;> exact Or.inl (SameReal.rfl' _)
-  | createGetSeq name =>
+  | createGetSeq name k =>
     simp only [World.step]; split <;> exact Or.inl (SameReal.rfl' _)
-  | createSetSeq name cur ver => exact absurd rfl (hns name cur ver)
+  | createSetSeq name cur ver k => exact absurd rfl (hns name cur ver k)
   | createSetRec name id =>
     simp only [World.step]
     right; refine ⟨⟨.set, tableKey name, .table ⟨name, id, 0⟩, 0⟩, tableKey_ne_seq name hc, ?_⟩
@@ -124,6 +137,19 @@ theorem step_key_other (w : World) (c : Call) (hc : SeqOK w c) (hns : ∀ name c
   | deleteDel name ver =>
     simp only [World.step]
     right; refine ⟨⟨.delete, tableKey name, .none_, ver⟩, tableKey_ne_seq name hc, ?_⟩
+    split <;> (rename_i heq; have hi := congrArg (fun x => x.1.issued) heq; exact ⟨by rw [heq]; exact ⟨rfl, rfl, rfl⟩, hi.symm⟩)
+  | restoreStart name =>
+    simp only [World.step]; split; · exact Or.inl (SameReal.rfl' _)
+    split <;> exact Or.inl (SameReal.rfl' _)
+  | restoreMark name tbl tver id =>
+    simp only [World.step]
+    right; refine ⟨⟨.set, tableKey name, .table ⟨name, tbl.clusterID, id⟩, tver⟩, tableKey_ne_seq name hc, ?_⟩
+    split <;> (rename_i heq; have hi := congrArg (fun x => x.1.issued) heq; exact ⟨by rw [heq]; exact ⟨rfl, rfl, rfl⟩, hi.symm⟩)
+  | restoreReread name id =>
+    simp only [World.step]; split <;> exact Or.inl (SameReal.rfl' _)
+  | restoreSwitch name id tbl ver =>
+    simp only [World.step]
+    right; refine ⟨⟨.set, tableKey name, .table ⟨tbl.name, id, 0⟩, ver⟩, tableKey_ne_seq name hc, ?_⟩
     split <;> (rename_i heq; have hi := congrArg (fun x => x.1.issued) heq; exact ⟨by rw [heq]; exact ⟨rfl, rfl, rfl⟩, hi.symm⟩)
   | leaseStart node name dur =>
     simp only [World.step]; split
@@ -153,7 +179,7 @@ theorem curSeq_congr {a b : World} (e : SameReal a b) : curSeq a = curSeq b := b
 
 /-- the state a call (other than `createSetSeq`) moves to satisfies `SeqOK` in the world it leaves -/
 theorem seqOK_step_self (w : World) (hw : WInv w) (c : Call) (h : SeqOK w c)
-    (hns : ∀ name cur ver, c ≠ .createSetSeq name cur ver) : SeqOK (w.step c).1 (w.step c).2 := by
+    (hns : ∀ name cur ver k, c ≠ .createSetSeq name cur ver k) : SeqOK (w.step c).1 (w.step c).2 := by
   cases c with
   | createStart name =>
     simp only [World.step]
@@ -164,7 +190,7 @@ theorem seqOK_step_self (w : World) (hw : WInv w) (c : Call) (h : SeqOK w c)
       · trivial
       · show validTableName name = true
         simpa using hv
-  | createGetSeq name =>
+  | createGetSeq name k =>
     simp only [World.step]
     split
     · rename_i k n ver hg
@@ -175,7 +201,7 @@ theorem seqOK_step_self (w : World) (hw : WInv w) (c : Call) (h : SeqOK w c)
     · rename_i hg
       refine ⟨h, hw.idx, ?_, fun _ => rfl⟩
       intro p hp; rw [hg] at hp; cases hp
-  | createSetSeq name cur ver => exact absurd rfl (hns name cur ver)
+  | createSetSeq name cur ver k => exact absurd rfl (hns name cur ver k)
   | createSetRec name id => simp only [World.step]; split <;> trivial
   | deleteStart name =>
     simp only [World.step]
@@ -187,6 +213,26 @@ theorem seqOK_step_self (w : World) (hw : WInv w) (c : Call) (h : SeqOK w c)
         simpa using hv
       · trivial
   | deleteDel name ver => simp only [World.step]; split <;> trivial
+  | restoreStart name =>
+    simp only [World.step]
+    split
+    · trivial
+    · rename_i hv
+      split
+      · show validTableName name = true
+        simpa using hv
+      · trivial
+      · show validTableName name = true
+        simpa using hv
+  | restoreMark name tbl tver id =>
+    simp only [World.step]; split
+    · exact h
+    · trivial
+  | restoreReread name id =>
+    simp only [World.step]; split
+    · exact h
+    · trivial
+  | restoreSwitch name id tbl ver => simp only [World.step]; split <;> trivial
   | leaseStart node name dur =>
     simp only [World.step]; split
     · trivial
@@ -228,10 +274,13 @@ theorem seqInv_ev (s : System) (e : Ev) (h : SeqInv s) : SeqInv (s.ev e) := by
     intro x hx
     have := h.calls x hx
     cases hc : x.2 with
-    | createSetSeq name cur ver => rw [hc] at this; exact this
-    | createGetSeq name => rw [hc] at this; exact this
+    | createSetSeq name cur ver k => rw [hc] at this; exact this
+    | createGetSeq name k => rw [hc] at this; exact this
     | createSetRec name id => rw [hc] at this; exact this
     | deleteDel name ver => rw [hc] at this; exact this
+    | restoreMark n t v i => rw [hc] at this; exact this
+    | restoreReread n i => rw [hc] at this; exact this
+    | restoreSwitch n i t v => rw [hc] at this; exact this
     | _ => trivial
   | sched id =>
     simp only [System.ev]
@@ -246,7 +295,7 @@ theorem seqInv_ev (s : System) (e : Ev) (h : SeqInv s) : SeqInv (s.ev e) := by
         exact this
       have hc := h.calls _ hmem
       simp only at hc
-      by_cases hns : ∀ name cur ver, c ≠ .createSetSeq name cur ver
+      by_cases hns : ∀ name cur ver k, c ≠ .createSetSeq name cur ver k
       · -- any call but the sequence write: the sequence record and the history are untouched
         have hself := seqOK_step_self s.w h.w c hc hns
         rcases step_key_other s.w c hc hns with he | ⟨u, hk, he, hiss⟩
@@ -254,15 +303,22 @@ theorem seqInv_ev (s : System) (e : Ev) (h : SeqInv s) : SeqInv (s.ev e) := by
           -- issued may only change in createSetSeq; show it is unchanged by cases on c
           have hiss' : (s.w.step c).1.issued = s.w.issued := by
             cases c with
-            | createSetSeq name cur ver => exact absurd rfl (hns name cur ver)
+            | createSetSeq name cur ver k => exact absurd rfl (hns name cur ver k)
             | createStart name => simp only [World.step]; split; · rfl
                                   split <;> rfl
-            | createGetSeq name => simp only [World.step]; split <;> rfl
+            | createGetSeq name k => simp only [World.step]; split <;> rfl
             | createSetRec name id =>
               simp only [World.step]; split <;> (rename_i heq; exact (congrArg (fun x => x.1.issued) heq).symm)
             | deleteStart name => simp only [World.step]; split; · rfl
                                   split <;> rfl
             | deleteDel name ver =>
+              simp only [World.step]; split <;> (rename_i heq; exact (congrArg (fun x => x.1.issued) heq).symm)
+            | restoreStart name => simp only [World.step]; split; · rfl
+                                   split <;> rfl
+            | restoreMark name tbl tver id =>
+              simp only [World.step]; split <;> (rename_i heq; exact (congrArg (fun x => x.1.issued) heq).symm)
+            | restoreReread name id => simp only [World.step]; split <;> rfl
+            | restoreSwitch name id tbl ver =>
               simp only [World.step]; split <;> (rename_i heq; exact (congrArg (fun x => x.1.issued) heq).symm)
             | leaseStart node name dur =>
               simp only [World.step]; split
@@ -305,11 +361,11 @@ theorem seqInv_ev (s : System) (e : Ev) (h : SeqInv s) : SeqInv (s.ev e) := by
           · exact hself
           · exact (seqOK_propose_other s.w u hk x.2 (h.calls x hx)).congr he
       · -- the sequence write
-        have : ∃ name cur ver, c = .createSetSeq name cur ver := by
-          by_cases hex : ∃ name cur ver, c = .createSetSeq name cur ver
+        have : ∃ name cur ver k, c = .createSetSeq name cur ver k := by
+          by_cases hex : ∃ name cur ver k, c = .createSetSeq name cur ver k
           · exact hex
-          · exfalso; apply hns; intro name cur ver heq; exact hex ⟨name, cur, ver, heq⟩
-        obtain ⟨name, cur, ver, rfl⟩ := this
+          · exfalso; apply hns; intro name cur ver k heq; exact hex ⟨name, cur, ver, k, heq⟩
+        obtain ⟨name, cur, ver, k, rfl⟩ := this
         obtain ⟨hvalid, hver, h3, h4⟩ := hc
         -- the value the call read is the current one whenever its write can succeed
         rcases applyUpd_cases s.w.store s.w.index ⟨.set, sequenceKey, .seq (cur + 1), ver⟩ with ⟨he, hv⟩ | ⟨p, hp, hne, he⟩
@@ -323,10 +379,10 @@ theorem seqInv_ev (s : System) (e : Ev) (h : SeqInv s) : SeqInv (s.ev e) := by
               obtain ⟨k, v, vr⟩ := p
               simp only at hpv; subst hpv; rfl
           obtain ⟨w2, hstep, hst, hix, hnw, hiss⟩ : ∃ w2 : World,
-              s.w.step (.createSetSeq name cur ver) = (w2, .createSetRec name (cur + 1)) ∧
+              s.w.step (.createSetSeq name cur ver k) = (w2, afterSeq name (cur + 1) k) ∧
               w2.store = s.w.store.put ⟨sequenceKey, .seq (cur + 1), s.w.index⟩ ∧ w2.index = s.w.index + 1 ∧
               w2.now = s.w.now ∧ w2.issued = s.w.issued ++ [cur + 1] := by
-            refine ⟨(s.w.step (.createSetSeq name cur ver)).1, ?_, ?_, ?_, ?_, ?_⟩ <;>
+            refine ⟨(s.w.step (.createSetSeq name cur ver k)).1, ?_, ?_, ?_, ?_, ?_⟩ <;>
               simp only [World.step, World.propose, he, applyOp]
           rw [hstep]
           have hgetnew : w2.store.get? sequenceKey = some ⟨sequenceKey, .seq (cur + 1), s.w.index⟩ := by
@@ -360,10 +416,10 @@ theorem seqInv_ev (s : System) (e : Ev) (h : SeqInv s) : SeqInv (s.ev e) := by
           · intro x hx
             simp only [List.mem_cons, List.mem_filter] at hx
             rcases hx with rfl | ⟨hx, _⟩
-            · exact hvalid
+            · exact seqOK_afterSeq _ _ _ _ hvalid
             · have hx' := h.calls x hx
               cases hxc : x.2 with
-              | createSetSeq name' cur' ver' =>
+              | createSetSeq name' cur' ver' k' =>
                 rw [hxc] at hx'
                 obtain ⟨g1, g2, g3, g4⟩ := hx'
                 refine ⟨g1, by simp only [hix]; omega, ?_, ?_⟩
@@ -371,12 +427,15 @@ theorem seqInv_ev (s : System) (e : Ev) (h : SeqInv s) : SeqInv (s.ev e) := by
                   simp only at hp; rw [hgetnew] at hp; injection hp with hp; subst hp
                   simp only at hpv; omega
                 · intro hn; simp only at hn; rw [hgetnew] at hn; cases hn
-              | createGetSeq name' => rw [hxc] at hx'; exact hx'
+              | createGetSeq name' k' => rw [hxc] at hx'; exact hx'
               | createSetRec name' id' => rw [hxc] at hx'; exact hx'
               | deleteDel name' ver' => rw [hxc] at hx'; exact hx'
+              | restoreMark n' t' v' i' => rw [hxc] at hx'; exact hx'
+              | restoreReread n' i' => rw [hxc] at hx'; exact hx'
+              | restoreSwitch n' i' t' v' => rw [hxc] at hx'; exact hx'
               | _ => trivial
         · -- version mismatch: nothing changes but the index
-          have hstep : s.w.step (.createSetSeq name cur ver) =
+          have hstep : s.w.step (.createSetSeq name cur ver k) =
               ({ s.w with index := s.w.index + 1 }, .doneErr .versionMismatch) := by
             simp only [World.step, World.propose, he]
           rw [hstep]
@@ -388,13 +447,16 @@ theorem seqInv_ev (s : System) (e : Ev) (h : SeqInv s) : SeqInv (s.ev e) := by
           · trivial
           · have hx' := h.calls x hx
             cases hxc : x.2 with
-            | createSetSeq name' cur' ver' =>
+            | createSetSeq name' cur' ver' k' =>
               rw [hxc] at hx'
               obtain ⟨g1, g2, g3, g4⟩ := hx'
               exact ⟨g1, by simp only; omega, g3, g4⟩
-            | createGetSeq name' => rw [hxc] at hx'; exact hx'
+            | createGetSeq name' k' => rw [hxc] at hx'; exact hx'
             | createSetRec name' id' => rw [hxc] at hx'; exact hx'
             | deleteDel name' ver' => rw [hxc] at hx'; exact hx'
+            | restoreMark n' t' v' i' => rw [hxc] at hx'; exact hx'
+            | restoreReread n' i' => rw [hxc] at hx'; exact hx'
+            | restoreSwitch n' i' t' v' => rw [hxc] at hx'; exact hx'
             | _ => trivial
     · exact h
 
